@@ -295,8 +295,8 @@ static void sequences(report& r, sz max_n)
     std::vector<config> cfgs;
     for (bool dist : {false, true})
     {
-        for (sz d : {sz(1), sz(2)}) cfgs.push_back({0, d, 0, dist});
-        for (sz d : {sz(1), sz(2)}) for (int v : {0, 1}) cfgs.push_back({1, d, v, dist});
+        for (sz d : {sz(1), sz(2), sz(3)}) cfgs.push_back({0, d, 0, dist});
+        for (sz d : {sz(1), sz(2), sz(3)}) for (int v : {0, 1}) cfgs.push_back({1, d, v, dist});
         for (int v : {0, 1, 2}) cfgs.push_back({2, sz(1), v, dist});
         cfgs.push_back({2, sz(2), 0, dist});
     }
